@@ -32,14 +32,20 @@ class ProvStore:
         return {d for d in self.identity_defs if d not in self.value_closure}
 
 
-def describe(d: Def) -> str:
+def describe(d: Def, canonical: bool = False) -> str:
+    """Human readable (or, with ``canonical``, local-name independent) description."""
+    from .canon import canon
+
+    name = "<id>" if canonical and d.kind != "param" else d.name
     if d.kind == "param":
         return f"{d.name}:param"
     if d.kind == "for":
-        return f"{d.name}:for {unparse(d.node.iter)[:40]}"
+        it = canon(d.node.iter) if canonical else unparse(d.node.iter)
+        return f"{name}:for {it[:40]}"
     if d.value is not None:
-        return f"{d.name}={unparse(d.value)[:50]}"
-    return f"{d.name}:{d.kind}"
+        v = canon(d.value) if canonical else unparse(d.value)
+        return f"{name}={v[:60]}"
+    return f"{name}:{d.kind}"
 
 
 def _rd_for(fn: FuncInfo, cache: dict) -> RD:
